@@ -4,7 +4,12 @@
  *
  *   init Z        hawk_xma_init(xma, mmgr, NULL, Z)   zone obtained through our mmgr (the `hawk -m` path)
  *   initx Z       hawk_xma_init(xma, mmgr, zone, Z)   externally supplied, 16-byte aligned zone of exactly Z bytes
+ *   initx Z       ... Z may be ANY size (also not a multiple of 16): the buffer handed over has exactly Z bytes, the byte
+ *                 after it is poisoned (ASan partial granule) and the guard bands carry a pattern that is verified
+ *                 when the zone is released ("!GUARD" on the next init line / at exit)
  *   alloc N       p = hawk_xma_alloc(N); the result goes into the next handle slot (also when NULL)
+ *   calloc N      p = hawk_xma_calloc(N); as alloc; the N bytes must read zero (" !NONZERO")
+ *   dump          hawk_xma_dump() into a collector: "r=dump blocks=<block lines> alloc=<bytes> avail=<bytes>"
  *   realloc I N   slot[I] = hawk_xma_realloc(slot[I], N) (slot empty -> realloc(NULL,N)); NULL keeps the old block
  *   free I        hawk_xma_free(slot[I]) (empty slot -> "r=skip")
  *
@@ -50,9 +55,17 @@ void __sanitizer_set_death_callback(void (*cb)(void));
 static unsigned char* raw; static size_t rawsize;   /* guard + zone + guard */
 static unsigned char* zone; static size_t zonesize;
 
+static int guard_broken;
 static void zone_release (void)
 {
-	if (raw) { UNPOISON(raw, rawsize); free(raw); raw = NULL; zone = NULL; }
+	if (raw)
+	{
+		size_t i;
+		UNPOISON(raw, rawsize);
+		for (i = 0; i < GUARD; i++) if (raw[i] != 0xEE) guard_broken = 1;
+		for (i = GUARD + zonesize; i < rawsize; i++) if (raw[i] != 0xEE) guard_broken = 1;
+		free(raw); raw = NULL; zone = NULL;
+	}
 }
 static unsigned char* zone_make (size_t z)
 {
@@ -64,8 +77,8 @@ static unsigned char* zone_make (size_t z)
 	memset(raw, 0xEE, rawsize);
 	zone = raw + GUARD; zonesize = z;
 	POISON(raw, GUARD);
-	/* asan poisons with 8-byte granularity: start at the next multiple of 8 at or after the zone end */
-	{ size_t e = (z + 7) & ~(size_t)7; POISON(zone + e, rawsize - GUARD - e); }
+	/* poison from the first byte after the zone (asan handles the partial granule: "first k bytes addressable") */
+	POISON(zone + z, rawsize - GUARD - z);
 	return zone;
 }
 
@@ -123,7 +136,8 @@ static const char* check_inv (void)
 		if (n >= icap) { icap = icap ? icap * 2 : 1024; ioff = (size_t*)realloc(ioff, icap * sizeof(size_t)); iflag = (unsigned char*)realloc(iflag, icap); }
 		ioff[n] = (size_t)(p - xma.start); iflag[n] = b->free ? 1 : 0;
 		if (b->prev_size != prevsz) return "prev";
-		if (b->size % ALIGN != 0 || b->size < MINALLOCSIZE) return "size";
+		/* every header at a multiple of ALIGN: all blocks but the last of the zone have aligned sizes */
+		if (((size_t)(p - xma.start)) % ALIGN != 0 || b->size < MINALLOCSIZE) return "size";
 		if (prevfree && b->free) return "adj";
 		if (b->free) { nfree++; fsum += b->size; } else { nused++; asum += b->size; }
 		prevsz = b->size; prevfree = b->free; n++;
@@ -234,6 +248,17 @@ static void dump (void)
 
 static void on_death (void) { fflush(stdout); }
 
+static int nonzero;
+static unsigned long dsum_blocks, dsum_alloc, dsum_avail;
+static void collect_dump (void* ctx, const hawk_bch_t* fmt, ...)
+{
+	char buf[512]; va_list ap; unsigned long v; unsigned int f;
+	va_start(ap, fmt); vsnprintf(buf, sizeof(buf), fmt, ap); va_end(ap);
+	if (sscanf(buf, " %lu %u 0x", &v, &f) == 2 && buf[0] == ' ') dsum_blocks++;
+	else if (sscanf(buf, "Allocated blocks: %lu", &v) == 1) dsum_alloc = v;
+	else if (sscanf(buf, "Available blocks: %lu", &v) == 1) dsum_avail = v;
+}
+
 int main (int argc, char** argv)
 {
 	char line[256], op[32]; unsigned long long x, y; unsigned long opno = 0;
@@ -269,16 +294,32 @@ int main (int argc, char** argv)
 			}
 			else r = hawk_xma_init(&xma, &mmgr, HAWK_NULL, (hawk_oow_t)x);
 			inited = (r >= 0);
+			if (guard_broken) { printf("!GUARD"); guard_broken = 0; }
 			if (inited && xma.start != zone) printf("!ZONE");
+			if (inited && (size_t)(xma.end - xma.start) > zonesize) printf("!ZONEEND");
 			printf("r=%d", r);
 			if (inited) printf(" z=%lu", (unsigned long)(xma.end - xma.start));
 		}
 		else if (!inited) { printf("bad-op\n"); continue; }
-		else if (!strcmp(op, "alloc") && sscanf(line, "%*s %llu", &x) == 1)
+		else if (!strcmp(op, "dump"))
+		{
+			dsum_blocks = 0; dsum_alloc = dsum_avail = 0;
+			hawk_xma_dump(&xma, collect_dump, HAWK_NULL);
+			printf("r=dump blocks=%lu alloc=%lu avail=%lu", dsum_blocks, dsum_alloc, dsum_avail);
+		}
+		else if ((!strcmp(op, "alloc") || !strcmp(op, "calloc")) && sscanf(line, "%*s %llu", &x) == 1)
 		{
 			void* p;
 			if (nh >= MAXH) { printf("bad-op\n"); continue; }
-			p = hawk_xma_alloc(&xma, (hawk_oow_t)x);
+			if (op[0] == 'c')
+			{
+				p = hawk_xma_calloc(&xma, (hawk_oow_t)x);
+				if (p && x <= (unsigned long long)(xma.end - xma.start))
+				{
+					size_t i; for (i = 0; i < (size_t)x; i++) if (((unsigned char*)p)[i] != 0) { nonzero = 1; break; }
+				}
+			}
+			else p = hawk_xma_alloc(&xma, (hawk_oow_t)x);
 			hp[nh] = p; hn[nh] = (size_t)x; nh++;
 			if (p && x > (unsigned long long)(xma.end - xma.start)) { printf("!OVERSIZE"); hn[nh - 1] = 0; }
 			fill(nh - 1);
@@ -322,12 +363,14 @@ int main (int argc, char** argv)
 		else { printf("bad-op\n"); continue; }
 		if ((opno & 7) == 0) verify_all();
 		dump();
+		if (nonzero) { printf(" !NONZERO"); nonzero = 0; }
 		{ const char* iv = check_inv(); if (iv) printf(" !INV:%s", iv); }
 		if (corrupt >= 0) printf(" CORRUPT h=%ld", corrupt);
 		printf("\n");
 	}
 	if (inited) { verify_all(); if (corrupt >= 0) printf("CORRUPT h=%ld\n", corrupt); hawk_xma_fini(&xma); }
 	zone_release();
+	if (guard_broken) printf("!GUARD\n");
 	fflush(stdout);
 	return 0;
 }
